@@ -23,6 +23,8 @@ SCENARIOS_QUICK = [
     # the application keeps a context entity, refreshes it after a new state was committed and prepares changes on it
     # without committing them: Get answers and the MDIB of that version stay what was committed
     ('R_ctx_all', 'A_entity_touch', 'pre:W_ctx_newpat'), ('R_mdib', 'A_entity_touch', 'pre:W_ctx_newpat'),
+    # a descriptor transaction on the descriptor of a selected state while the answer waits to be serialised
+    ('R_state_m1', 'W_descr_m1'), ('R_ctx_all', 'W_descr_pc'),
 ]
 SCENARIOS_THOROUGH = SCENARIOS_QUICK + [
     ('R_state_m1', 'W_metric_m1', 'W_comp_vmd'), ('R_state_all', 'R_descr', 'W_descr_m1'),
